@@ -25,6 +25,15 @@ def check_C02(report, tier, seed):
                    "a case is distinct by (version, resolution, packet text)")
     gv.theorem_obligations(report, "GV/Props/C02.lean", "GV.Props.C02", audit=True)
     S.suite_encode(report, tier, seed, "C02")
+    # the packets the engine itself builds and writes (CONNECT from the options, acknowledgements, pings, user packets with their
+    # ids and flags): every one is accepted by the reference decoder of the negotiated version
+    import suites_engine as E
+    walks = E.run_walks(seed, tier, "engine-c02", 160, 4000, profile=lambda i: "connects" if i % 2 == 0 else "default")
+    corr_ok = E.correspondence(report, walks, "C02")
+    mon_ok = E.monitor(report, walks, "C02")
+    if not corr_ok and mon_ok:
+        more = E.run_walks(seed + 1, tier, "engine-c02-search", 1200, 4000, replay_model=False, profile=lambda i: "connects")
+        E.monitor(report, more, "C02", label="search")
 
 
 def check_C03(report, tier, seed):
@@ -54,7 +63,7 @@ def check_C16(report, tier, seed):
     S.suite_validate(report, tier, seed, "C16")
     S.suite_connect_limits(report, tier, seed, "C16")
     import suites_engine as E
-    walks = E.run_walks(seed, tier, "engine-c16", 120, 4000, profile=lambda i: "mpstight" if i % 2 == 0 else "default")
+    walks = E.run_walks(seed, tier, "engine-c16", 160, 4000, profile=lambda i: "mpstight" if i % 2 == 0 else ("connects" if i % 4 == 1 else "default"))
     corr_ok = E.correspondence(report, walks, "C16")
     mon_ok = E.monitor(report, walks, "C16")
     if not corr_ok and mon_ok:
